@@ -12,17 +12,17 @@ package main
 //     `Reg.seg`, a `Regions` / `[]gts.Region` value is `Reg.many`), `[]gts.Region` and `gts.Regions` are
 //     `List Gts.Reg`, `[]gts.Segment` is `List (Int × Int)`, `[]int` is `List Int`, `int` the unbounded
 //     `Int`.  Slices are VALUES (aliasing is the subject of C11): `xs[i]`, `xs[a:]`, `xs[:b]`,
-//     `xs[a:b]`, `xs[i] = v`, `make([]T, n)` are the checked operations `goAt … goMake` of the prelude
-//     Gts/Gen/GoList.lean (a slice end beyond `len` is read as a panic), `append(xs, v)` is
+//     `xs[a:b]`, `xs[i] = v`, `make([]T, n)` are the checked operations `clAt … clMake` of the prelude
+//     Gts/Gen/CliList.lean (a slice end beyond `len` is read as a panic), `append(xs, v)` is
 //     `xs ++ [v]`, `len(xs)` is `xs.length`.
 //   - `map[int]interface{}` used as a set (`m[k] = nil`, `len(m)`, `for k := range m`) is the list of
-//     its keys in order of first insertion (`goSetAdd`); `for k := range m` visits `mapOrder keys`,
+//     its keys in order of first insertion (`clSetAdd`); `for k := range m` visits `mapOrder keys`,
 //     `mapOrder` a PARAMETER of the generated function (Go's iteration order is unspecified: the
 //     bridge theorems hold for every `mapOrder` that permutes its argument).
 //   - `for i, x := range xs { … }` is a structurally recursive helper over the list value `xs` has at
 //     loop entry, with the variables of the enclosing scopes that the body assigns as arguments (the
 //     loop state, in order of declaration) and `i` counting the elements passed.  When the body
-//     stores into the ranged slice variable itself (`rr[i] = …`), `x` is read LIVE (`goAt rr i`), as
+//     stores into the ranged slice variable itself (`rr[i] = …`), `x` is read LIVE (`clAt rr i`), as
 //     Go does; any other assignment to that variable is refused.  A loop without state whose body
 //     returns (`containsRegion`) yields `Option (Option R)`: `some none` = ran to completion.
 //     Three-clause `for`, `continue`, `goto`, labels, and `break` inside a loop are refused.
@@ -36,7 +36,7 @@ package main
 //     `gts.Copy`, the conversions `gts.Sequence(x)`, `gts.Regions(x)` and `gts.WithTopology(x, t)` are
 //     the identity on values (the model's sequences carry no topology; each is recorded as a fact);
 //     `flip.Flip(gts.BySegment(ss))` is `ss.reverse`, `sort.Sort(sort.Reverse(sort.IntSlice(x)))` is
-//     the model's `Cli.sortDesc`, `sort.Ints(x)` the prelude's `sortInts` (specification: THE sorted
+//     the model's `Cli.sortDesc`, `sort.Ints(x)` the prelude's `clSortInts` (specification: THE sorted
 //     permutation), each recorded as a fact.  A locator (`gts.Locator`) is a parameter function
 //     `Gts.Seq → List Gts.Reg`.
 //   - `if _, err := writer.WriteSeq(x); err != nil { return ctx.Raise(err) }` appends `x` to the list
@@ -111,9 +111,9 @@ func kscalar(v kv) kv {
 
 // names the generated text uses itself
 var kReserved = map[string]bool{"written_": true, "rest_": true, "i_": true, "mapOrder": true, "circular": true, "fuel": true,
-	"none": true, "some": true, "default": true, "decide": true, "true": true, "false": true, "goAt": true, "goFrom": true,
-	"goTo": true, "goSub": true, "goPut": true, "goMake": true, "goSetAdd": true, "sortInts": true, "insertInts": true,
-	"goIndexByte": true, "selOk": true}
+	"none": true, "some": true, "default": true, "decide": true, "true": true, "false": true, "clAt": true, "clFrom": true,
+	"clTo": true, "clSub": true, "clPut": true, "clMake": true, "clSetAdd": true, "clSortInts": true, "clInsertInts": true,
+	"clIndexByte": true, "selOk": true}
 
 var kKeywords = map[string]bool{"rec": true, "sorry": true, "unsafe": true, "meta": true, "prelude": true, "macro_rules": true,
 	"at": true, "fun": true, "Σ": true, "λ": true, "nat_lit": true, "scoped": true, "nonrec": true, "run_cmd": true, "id": true}
@@ -416,7 +416,7 @@ func (c *kctx) expr(x ast.Expr, pre *[]kbind) kv {
 			refuse("index expression on a %s", base.kind)
 		}
 		idx := c.intOf(n.Index, pre)
-		return kv{kind: ek, term: c.effect(pre, fmt.Sprintf("goAt %s %s", base.term, idx))}
+		return kv{kind: ek, term: c.effect(pre, fmt.Sprintf("clAt %s %s", base.term, idx))}
 	case *ast.SliceExpr:
 		base := c.expr(n.X, pre)
 		if _, ok := kElem[base.kind]; !ok && base.kind != "bytes" || n.Slice3 {
@@ -426,13 +426,13 @@ func (c *kctx) expr(x ast.Expr, pre *[]kbind) kv {
 		case n.Low == nil && n.High == nil:
 			return base
 		case n.High == nil:
-			return kv{kind: base.kind, term: c.effect(pre, fmt.Sprintf("goFrom %s %s", base.term, c.intOf(n.Low, pre)))}
+			return kv{kind: base.kind, term: c.effect(pre, fmt.Sprintf("clFrom %s %s", base.term, c.intOf(n.Low, pre)))}
 		case n.Low == nil:
-			return kv{kind: base.kind, term: c.effect(pre, fmt.Sprintf("goTo %s %s", base.term, c.intOf(n.High, pre)))}
+			return kv{kind: base.kind, term: c.effect(pre, fmt.Sprintf("clTo %s %s", base.term, c.intOf(n.High, pre)))}
 		}
 		lo := c.intOf(n.Low, pre)
 		hi := c.intOf(n.High, pre)
-		return kv{kind: base.kind, term: c.effect(pre, fmt.Sprintf("goSub %s %s %s", base.term, lo, hi))}
+		return kv{kind: base.kind, term: c.effect(pre, fmt.Sprintf("clSub %s %s %s", base.term, lo, hi))}
 	case *ast.CompositeLit:
 		switch exprString(n.Type) {
 		case "Segment", "gts.Segment":
@@ -693,5 +693,5 @@ func (c *kctx) makeCall(n *ast.CallExpr, pre *[]kbind) kv {
 		refuse("make of %s", exprString(n.Args[0]))
 	}
 	cnt := c.intOf(n.Args[1], pre)
-	return kv{kind: lk, term: c.effect(pre, fmt.Sprintf("goMake %s %s", kLean[ek], cnt))}
+	return kv{kind: lk, term: c.effect(pre, fmt.Sprintf("clMake %s %s", kLean[ek], cnt))}
 }
